@@ -249,4 +249,7 @@ impl MetadataClient for GatedMeta {
     async fn has_active_split(&self) -> Result<bool> {
         gated!(self, "has_active_split", String::new(), self.inner.has_active_split())
     }
+    async fn pending_split_targets(&self) -> Result<Vec<String>> {
+        gated!(self, "pending_split_targets", String::new(), self.inner.pending_split_targets())
+    }
 }
